@@ -312,13 +312,13 @@ class BatchDL:
                          "implies(in_group(self, points[k][0], points[k][1]), "
                          "is_dlog(self, result[k], points[k][0], points[k][1]))))")]
   on_call = {f"{E}::EcCurve.PointSequence": [
-      "assert [C10] implies(len(points) >= 1, table_size >= 1) and t == 2 * table_size - 1",
+      "assert [C10,C17] implies(len(points) >= 1, table_size >= 1) and t == 2 * table_size - 1",
       # every x in [0, n) lies within the baby-step window of a giant step; explicit witness j = (x + table_size - 1) // t
-      "check [C10] implies(len(points) >= 1, forall(x, 0, n, divmod_def(x + table_size - 1, t) and "
+      "check [C10,C17] implies(len(points) >= 1, forall(x, 0, n, divmod_def(x + table_size - 1, t) and "
       "0 <= idiv(x + table_size - 1, t) and "
       "idiv(x + table_size - 1, t) < args[1] and 0 - table_size < x - idiv(x + table_size - 1, t) * t and "
       "x - idiv(x + table_size - 1, t) * t < table_size))",
-      "assert [C10] self._table_size >= table_size"],
+      "assert [C10,C17] self._table_size >= table_size"],
              # candidate verification: y = Multiply(G, dl); whichever comparison with the target p succeeds afterwards,
              # the value stored is a logarithm of p
              f"{E}::EcCurve.Multiply": [
@@ -358,7 +358,7 @@ class BatchDL:
                                          "is_dlog(self, res[i], p[0], p[1])))")])}
   var_types = {"res": "list[Optional[int]]"}
   feasibility = False
-  props = ["C02", "C10"]
+  props = ["C02", "C10", "C17"]
 
 
 # relation between the transformed point T = all_points[t] and its source, t = i + num_points * j (flat index, written with
